@@ -1037,6 +1037,7 @@ int main(int argc, char** argv)
 #endif
 #if !defined(MC_PART) || MC_PART == 2
     m.job("optional<Tracked>/k3", both, [](mc::Reporter& r) { explore<OptionalSys<TCM, int, 3>>(r); });
+    m.job("optional<TrackedRule3>/k3", both, [](mc::Reporter& r) { explore<OptionalSys<mc::Tracked<mc::rule3>, int, 3>>(r); });
     m.job("optional<Tracked>/k4", th, [](mc::Reporter& r) { explore<OptionalSys<TCM, int, 4>>(r); });
 #endif
 #if !defined(MC_PART) || MC_PART == 3
